@@ -39,6 +39,7 @@ WRITES = {"WriteText", "WriteHdf", "WriteHdfObj", "SavePars", "WriteGrains", "Wr
           "PutGrainH5", "WriteSparse"}
 READS = {"ReadText", "ReadHdf", "ReadAuto", "ReadMmap", "LoadFresh", "LoadInto", "ReadGrains", "ReadUbis",
          "ReadGrainsH5", "ReadSparse"}
+WRITER_OF = {"WriteHdf": "colfile_to_hdf", "WriteSparse": "sparse_frame.to_hdf_group"}
 NPROC = 8
 WORKERS = int(os.environ.get("C18_WORKERS", "16"))
 
@@ -179,7 +180,7 @@ def _work(args):
                          relations=W.relations)
             r["n"] = n
             r["variant"] = variant
-            if widen and (_G.get("widen_all", True) or n % 2 == 0):
+            if widen and (_G.get("widen_all", True) or n % 3 == 0):
                 r["widen"] = W.replay_widened(family, hist, seeds_of(ea[0]), ea, ef,
                                               os.path.join(root, "w%d" % n), seed=widen * 1000003 + n)
             out.append(r)
@@ -228,6 +229,7 @@ class Judge(object):
         self.replay_path = replay_path      # --replay: re-judge, do not write new replay files
         self.viol = {}       # signature -> (len, what, replay object)
         self.stale = {}      # description -> (len, replay object)
+        self.stale_n = {}    # description -> number of histories
         self.nstale = 0
 
     def case(self, family, cfg, hist, ea, ef, r, mode="model"):
@@ -255,6 +257,7 @@ class Judge(object):
             ok, why = stale_explained(hist, ea, ef)
             if ok:
                 self.nstale += 1
+                self.stale_n[why] = self.stale_n.get(why, 0) + 1
                 old = self.stale.get(why)
                 if old is None or len(hist) < old[0]:
                     obj["what"] = why
@@ -294,19 +297,27 @@ class Judge(object):
     def report(self):
         chk = self.chk
         entry = chk.finding(FINDING)
+        # the class the entry names: which writers it covers (default: the one DESIGN F11 names)
+        covered = []
+        if entry is not None:
+            covered = list((entry.get("match") or {}).get("writers", ["colfile_to_hdf"]))
+        counts = {}
         for why, (n, obj) in sorted(self.stale.items(), key=lambda kv: kv[1][0]):
-            if entry is not None:
-                chk.known_finding(FINDING, "writing an object with fewer titles into an existing HDF5 group "
-                                           "leaves the datasets of the dropped titles (set of titles not preserved)")
+            writer = WRITER_OF[[a for a in obj["hist"] if a["op"] in WRITER_OF][-1]["op"]]
+            if writer in covered:
+                counts[writer] = counts.get(writer, 0) + self.stale_n.get(why, 1)
             else:
-                # one violation (shortest history) per writer when the finding is not listed
-                sig = ("stale", obj["hist"][-1]["op"] if False else
-                       [a for a in obj["hist"] if a["op"] in ("WriteHdf", "WriteSparse")][-1]["op"])
+                # one violation (shortest history) per writer when the finding does not cover it
+                sig = ("stale", writer)
                 old = self.viol.get(sig)
                 if old is None or n < old[0]:
-                    self.viol[sig] = (n, "F11 (not listed in known_findings.json): " + why, obj)
-        if entry is not None and self.nstale:
-            chk.known[FINDING][0] = self.nstale
+                    self.viol[sig] = (n, "F11 (%s not covered by a known_findings.json entry %s): %s" % (
+                        writer, FINDING, why), obj)
+        if counts:
+            chk.known_finding(FINDING, "writing an object with fewer titles into an existing HDF5 group leaves the "
+                                       "datasets of the dropped titles, the set of titles is not preserved (%s)" %
+                              ", ".join(sorted(counts)))
+            chk.known[FINDING][0] = sum(counts.values())
         chk.notes["stale_histories"] = self.nstale
         chk.notes["stale_classes"] = sorted(self.stale)[:12]
         for sig, (n, what, obj) in sorted(self.viol.items(), key=lambda kv: (kv[1][0], str(kv[0]))):
